@@ -153,3 +153,12 @@ impl Default for PurlParts {
                 hints=[(r'Self::builder\(package_type, name\)\.build\(\)', 'before', '        proof { assert(wf_seq(Seq::<(QualifierKey, SmallString)>::empty())); }')]),
     ],
 )
+
+# "building from field values" is an entry point of C04, C08, C10, C13 and C14 as much as of C09: a setter that stores something else
+# than it was given breaks "identically from the parser and from the builder" (C08), "the same outcome whichever built-in type
+# parameter" only through the shared generic code (C13) etc.
+for _u in GROUP['units']:
+    if _u.get('properties') is not None and _u['id'].startswith(('U-set.', 'U-build.', 'U-acc.new')) and _u.get('mode') != 'contract_only':
+        for _p in ('C04', 'C08', 'C10', 'C14'):
+            if _p not in _u['properties']:
+                _u['properties'].append(_p)
